@@ -373,7 +373,7 @@ def run_sim(binary, args=(), nodes=1, ppn=1, env=None, sim_seed=1, policy="unifo
     e.update({"SIMMPI_NODES": str(nodes), "SIMMPI_PPN": str(ppn), "SIMMPI_SEED": str(sim_seed),
               "SIMMPI_POLICY": policy, "SIMMPI_EAGER_PCT": str(eager_pct), "SIMMPI_MAX_STEPS": str(max_steps),
               "SIMMPI_LIVELOCK": str(livelock), "SIMMPI_LOG_BYTES": str(log_bytes),
-              "YGM_COMM_IRECV_SIZE_KB": "4096", "SIMMPI_WALL_S": str(int(timeout) + 30), "SIMMPI_MAX_LOG_MB": "768"})
+              "YGM_COMM_IRECV_SIZE_KB": "4096", "SIMMPI_WALL_S": str(int(timeout) + 30), "SIMMPI_MAX_LOG_MB": "320"})
     if "SIMMPI_AS_MB" not in e and "-san-" not in os.path.basename(binary) and "san" not in os.path.basename(binary).split("-")[0]:
         e["SIMMPI_AS_MB"] = "6144"     # a runaway handler must not eat the machine (not for sanitizer builds)
     e.pop("SIMMPI_LOG", None)
@@ -409,11 +409,20 @@ def run_sim(binary, args=(), nodes=1, ppn=1, env=None, sim_seed=1, policy="unifo
                 with open(os.path.join(tmpd, f), errors="replace") as fh:
                     outs[int(f[4:])] = fh.read().split("\n")[:-1]
         log = []
-        if want_log and os.path.exists(logp) and os.path.getsize(logp) > (900 << 20):
-            oversize = True
-        elif want_log and os.path.exists(logp):
+        mv = re.search(r"SIMMPI verdict=(.*?) steps=", out)
+        run_ok = bool(mv and mv.group(1) == "ok") and not timed_out
+        if want_log and os.path.exists(logp):
+            size = os.path.getsize(logp)
+            if size > (300 << 20):
+                oversize = True
             with open(logp, errors="replace") as f:
-                log = f.read().split("\n")
+                if not run_ok and size > (8 << 20):
+                    f.seek(size - (8 << 20))      # a failed run: the tail is enough for the report
+                    f.readline()
+                if run_ok and oversize:
+                    log = []
+                else:
+                    log = f.read().split("\n")
             if log and log[-1] == "":
                 log.pop()
     finally:
